@@ -15,6 +15,7 @@
 #include <cstdio>
 #include <cstdlib>
 #include <functional>
+#include <limits>
 #include <map>
 #include <set>
 #include <sstream>
@@ -566,4 +567,31 @@ inline Bool eq(const Real &a, const Real &b) { return Bool(a.q() == b.q()); }
 inline Bool ne(const Real &a, const Real &b) { return Bool(a.q() != b.q()); }
 #endif
 
+#ifndef SYMT_STRICT
+// Conveniences that are NOT part of the documented scalar requirements (C19 builds with -DSYMT_STRICT and does not
+// get them). They exist so that a change which starts to use <cmath>/<limits> on T can still be *decided* for the
+// other properties instead of merely failing to compile: abs forks on the sign, and the numeric_limits constants are
+// free positive symbolic values ("T has some epsilon"), so a guard such as `h <= epsilon()` is explored on both sides.
+inline Real abs(const Real &x) { return x < Real(0) ? -x : x; }
+inline Real fabs(const Real &x) { return abs(x); }
+inline Real limit_constant(const char *name) {
+  Real v = Real::var(name);
+  Engine::get().assume(gt(v, Real(0)));
+  return v;
+}
+#endif
 }  // namespace sym
+
+#ifndef SYMT_STRICT
+namespace std {
+template <>
+struct numeric_limits<sym::Real> {
+  static constexpr bool is_specialized = true, is_signed = true, is_integer = false, is_exact = false, has_infinity = false, has_quiet_NaN = false;
+  static sym::Real epsilon() { return sym::limit_constant("limits_epsilon"); }
+  static sym::Real min() { return sym::limit_constant("limits_min"); }
+  static sym::Real max() { return sym::limit_constant("limits_max"); }
+  static sym::Real lowest() { return -sym::limit_constant("limits_max"); }
+  static sym::Real round_error() { return sym::Real::frac(1, 2); }
+};
+}  // namespace std
+#endif
